@@ -169,6 +169,71 @@ def make_selfref(case):
     return run
 
 
+def make_api(case):
+    """add_field with explicit offsets (0 included) and a batch left by an exception vs the structure made in one piece."""
+    cfg, plan, mode = case["cfg"], case["plan"], case["mode"]
+
+    def run(ctx):
+        from dissect.cstruct import cstruct, compiler
+        from dissect.cstruct.types.structure import Field
+        cs1 = cstruct(endian=cfg["endian"])
+        one = cs1._make_struct("test", [Field(f"f{i}", cs1.resolve(tn), bits=bits, offset=off) for i, (tn, bits, off) in enumerate(plan)],
+                               align=cfg["align"])
+        if cfg["compiled"]:
+            one = compiler.compile(one)
+        cs2 = cstruct(endian=cfg["endian"])
+        cs2.load("struct test { };", compiled=cfg["compiled"], align=cfg["align"])
+        inc = cs2.test
+        items = [(f"f{i}", cs2.resolve(tn), bits, off) for i, (tn, bits, off) in enumerate(plan)]
+        if mode == "each":
+            for name, t, bits, off in items:
+                inc.add_field(name, t, bits=bits, offset=off)
+        elif mode == "batch":
+            with inc.start_update():
+                for name, t, bits, off in items:
+                    inc.add_field(name, t, bits=bits, offset=off)
+        else:   # a batch left by an exception after the first two members, the rest added normally
+            try:
+                with inc.start_update():
+                    for name, t, bits, off in items[:2]:
+                        inc.add_field(name, t, bits=bits, offset=off)
+                    raise KeyError("caller's own error inside the batch")
+            except KeyError:
+                pass
+            for name, t, bits, off in items[2:]:
+                inc.add_field(name, t, bits=bits, offset=off)
+        s1, s2 = _sig(one), _sig(inc)
+        ctx.check("same layout as the structure made in one piece", s1 == s2, f"{s1} vs {s2}")
+        ctx.check("same reader kind", bool(one.__compiled__) == bool(inc.__compiled__), f"{one.__compiled__} vs {inc.__compiled__}")
+        data = ctx.bytes("b", 24)
+        q = ctx.int("q", 0, 1 << 12)
+        out = []
+        for cls in (one, inc):
+            s = ctx.based_stream(data, q * 16)
+            try:
+                v = cls.read(s)
+                out.append(("value", v, s.tell()))
+            except Exception as e:  # noqa: BLE001
+                out.append(("error", H.classify(e), None))
+        ctx.check("same parse outcome", out[0][0] == out[1][0], f"{out[0][:2] if out[0][0] == 'error' else 'value'} vs {out[1][:2] if out[1][0] == 'error' else 'value'}")
+        if out[0][0] == out[1][0] == "value":
+            ctx.check("same values", R.And(*[getattr(out[0][1], f"f{i}") == getattr(out[1][1], f"f{i}") for i in range(len(plan))]))
+            ctx.check("same position", out[0][2] == out[1][2])
+            try:
+                ctx.check("same dump", R.bytes_eq(out[0][1].dumps(), out[1][1].dumps()))
+            except Exception as e:  # noqa: BLE001
+                ctx.check("both dump", False, H.classify(e))
+    return run
+
+
+API_PLANS = [
+    [("uint8", None, None), ("uint32", None, None), ("uint16", None, None), ("uint8", None, None)],
+    [("uint32", None, None), ("uint8", None, 0), ("uint16", None, 6), ("uint8", None, None)],      # overlay at offset 0
+    [("uint8", None, 2), ("uint16", None, 0), ("uint32", None, 8), ("uint8", None, None)],
+    [("uint16", 4, None), ("uint16", 12, None), ("uint8", None, 0), ("uint32", None, None)],
+]
+
+
 def make_flags(case):
     """#[nocompile] applies to the definition it precedes only."""
     cfg = case["cfg"]
@@ -203,6 +268,13 @@ FLAG_TEXTS = [
 
 
 def cases(tier, seed):
+    for i, plan in enumerate(API_PLANS):
+        for mode in ("each", "batch", "aborted"):
+            for e in "<>":
+                for a in (False, True):
+                    for c in (False, True):
+                        yield {"label": f"api plan={i} {mode}", "plan": [list(x) for x in plan], "mode": mode,
+                               "cfg": {"endian": e, "align": a, "compiled": c}, "make": "make_api"}
     for i, (text, plain, expect) in enumerate(FLAG_TEXTS):
         for e in "<>":
             yield {"label": f"config-flag scope {i}", "text": text, "plain": plain, "expect": expect, "cfg": {"endian": e, "align": e == ">"},
